@@ -411,7 +411,37 @@ type C01Mixed struct {
 	Network bool      `json:"network"`
 }
 
+// quietF32 sets the quiet bit of every float32 signalling NaN in the tree (a copy). Go quiets such a value whenever it
+// passes through a float32 -> float64 conversion (reflect.Value.Float), which no encoder working from a Go value can
+// avoid: the payload of a signalling NaN is not something the encode path can be asked to preserve (DESIGN 4.2).
+func quietF32(t *rn.Tag) *rn.Tag {
+	n := *t
+	if t.Type == rn.Float {
+		if b := uint32(t.F); b&0x7f800000 == 0x7f800000 && b&0x007fffff != 0 {
+			n.F = uint64(b | 0x00400000)
+		}
+	}
+	if len(t.L) > 0 {
+		n.L = make([]*rn.Tag, len(t.L))
+		for i, e := range t.L {
+			n.L[i] = quietF32(e)
+		}
+	}
+	if len(t.V) > 0 {
+		n.V = make([]*rn.Tag, len(t.V))
+		for i, e := range t.V {
+			n.V[i] = quietF32(e)
+		}
+	}
+	return &n
+}
+
 func c01CheckMixed(c C01Mixed) *pbt.Violation {
+	elems := make([]*rn.Tag, len(c.Elems))
+	for i, e := range c.Elems {
+		elems[i] = quietF32(e)
+	}
+	c.Elems = elems
 	list := make([]any, len(c.Elems))
 	for i, e := range c.Elems {
 		a := gm.AnyVD(e)
